@@ -89,6 +89,10 @@ func c24Flags(g *Gen) string {
 }
 
 func c24U(g *Gen, bits uint) uint64 {
+	if bits == 64 && g.R.Chance(25) { // just beyond 32 bits, the float53 limit, the int64/uint64 limits
+		g.Count("u64:beyond-32-bits")
+		return []uint64{1 << 32, 1<<32 + 33, 1<<53 - 1, 1 << 53, 1<<63 - 1, 1 << 63, 1<<64 - 1, 1<<64 - 2, 0xFFFFFFFF}[g.R.Intn(9)]
+	}
 	v := g.R.BoundaryU64()
 	if bits < 64 {
 		v &= (1 << bits) - 1
@@ -727,42 +731,103 @@ func c24Out(m kvm) string {
 	return fmt.Sprintf("%s back=%s gw=%s", s, back, gw)
 }
 
+// The client's own message types (what an SDK would declare from the protocol document): independent of the
+// repository's structs, so that a changed field type there is observed as a behaviour, not as a build failure.
+type cliHeader struct {
+	NoPersist bool `json:"noPersist,omitempty"`
+	RedDot    bool `json:"redDot,omitempty"`
+	SyncOnce  bool `json:"syncOnce,omitempty"`
+	Dup       bool `json:"dup,omitempty"`
+	End       bool `json:"end,omitempty"`
+}
+type cliSetting struct {
+	Receipt bool `json:"receipt,omitempty"`
+	Signal  bool `json:"signal,omitempty"`
+	Stream  bool `json:"stream,omitempty"`
+	Topic   bool `json:"topic,omitempty"`
+}
+type cliMsg struct {
+	Jsonrpc string      `json:"jsonrpc,omitempty"`
+	Method  string      `json:"method"`
+	ID      string      `json:"id,omitempty"`
+	Params  interface{} `json:"params,omitempty"`
+}
+type cliConnect struct {
+	Header          cliHeader `json:"header,omitempty"`
+	Version         int64     `json:"version,omitempty"`
+	ClientKey       string    `json:"clientKey,omitempty"`
+	DeviceID        string    `json:"deviceId,omitempty"`
+	DeviceFlag      int64     `json:"deviceFlag"`
+	ClientTimestamp int64     `json:"clientTimestamp,omitempty"`
+	UID             string    `json:"uid"`
+	Token           string    `json:"token"`
+}
+type cliSend struct {
+	Header      cliHeader  `json:"header,omitempty"`
+	Setting     cliSetting `json:"setting,omitempty"`
+	MsgKey      string     `json:"msgKey,omitempty"`
+	Expire      uint32     `json:"expire,omitempty"`
+	ClientMsgNo string     `json:"clientMsgNo,omitempty"`
+	StreamNo    string     `json:"streamNo,omitempty"`
+	ChannelID   string     `json:"channelId"`
+	ChannelType int64      `json:"channelType"`
+	Topic       string     `json:"topic,omitempty"`
+	Payload     []byte     `json:"payload"`
+}
+type cliRecvAck struct {
+	Header     cliHeader `json:"header,omitempty"`
+	MessageID  string    `json:"messageId"`
+	MessageSeq uint64    `json:"messageSeq"`
+}
+type cliDisconnect struct {
+	ReasonCode int64  `json:"reasonCode"`
+	Reason     string `json:"reason,omitempty"`
+}
+type cliSub struct {
+	SubNo       string `json:"subNo"`
+	ChannelID   string `json:"channelId"`
+	ChannelType int64  `json:"channelType"`
+	Param       string `json:"param,omitempty"`
+}
+
+func (m kvm) cliHeader() cliHeader {
+	f := m.framer()
+	return cliHeader{NoPersist: f.NoPersist, RedDot: f.RedDot, SyncOnce: f.SyncOnce, Dup: f.DUP, End: f.End}
+}
+
 func c24In(m kvm) string {
 	rid := m.s("rid")
-	base := jsonrpc.BaseRequest{Jsonrpc: "2.0", ID: rid}
-	var msg interface{}
+	msg := cliMsg{Jsonrpc: "2.0", ID: rid}
 	switch m["t"] {
 	case "connect":
-		base.Method = jsonrpc.MethodConnect
-		msg = jsonrpc.ConnectRequest{BaseRequest: base, Params: jsonrpc.ConnectParams{Header: m.header(), Version: int(m.i("ver")), ClientKey: m.s("ckey"), DeviceID: m.s("dev"),
-			DeviceFlag: jsonrpc.DeviceFlagEnum(m.i("dflag")), ClientTimestamp: m.i("ts"), UID: m.s("uid"), Token: m.s("tok")}}
+		msg.Method = jsonrpc.MethodConnect
+		msg.Params = cliConnect{Header: m.cliHeader(), Version: m.i("ver"), ClientKey: m.s("ckey"), DeviceID: m.s("dev"), DeviceFlag: m.i("dflag"), ClientTimestamp: m.i("ts"), UID: m.s("uid"), Token: m.s("tok")}
 	case "send":
 		st := m["set"]
 		if len(st) != 4 {
 			return "bad-op"
 		}
-		base.Method = jsonrpc.MethodSend
-		msg = jsonrpc.SendRequest{BaseRequest: base, Params: jsonrpc.SendParams{Header: m.header(), Setting: jsonrpc.SettingFlags{Receipt: st[0] == '1', Signal: st[1] == '1', Stream: st[2] == '1', Topic: st[3] == '1'},
-			MsgKey: m.s("mk"), Expire: uint32(m.u("exp")), ClientMsgNo: m.s("no"), StreamNo: m.s("sno"), ChannelID: m.s("ch"), ChannelType: int(m.i("ct")), Topic: m.s("top"), Payload: m.b("pl")}}
+		msg.Method = jsonrpc.MethodSend
+		msg.Params = cliSend{Header: m.cliHeader(), Setting: cliSetting{Receipt: st[0] == '1', Signal: st[1] == '1', Stream: st[2] == '1', Topic: st[3] == '1'},
+			MsgKey: m.s("mk"), Expire: uint32(m.u("exp")), ClientMsgNo: m.s("no"), StreamNo: m.s("sno"), ChannelID: m.s("ch"), ChannelType: m.i("ct"), Topic: m.s("top"), Payload: m.b("pl")}
 	case "ping":
-		base.Method = jsonrpc.MethodPing
-		r := jsonrpc.PingRequest{BaseRequest: base}
+		msg.Method = jsonrpc.MethodPing
 		if m["pp"] == "1" {
-			r.Params = &jsonrpc.PingParams{}
+			msg.Params = struct{}{}
 		}
-		msg = r
 	case "disconnect":
-		base.Method = jsonrpc.MethodDisconnect
-		msg = jsonrpc.DisconnectRequest{BaseRequest: base, Params: jsonrpc.DisconnectParams{ReasonCode: jsonrpc.ReasonCodeEnum(m.i("rc")), Reason: m.s("reason")}}
+		msg.Method = jsonrpc.MethodDisconnect
+		msg.Params = cliDisconnect{ReasonCode: m.i("rc"), Reason: m.s("reason")}
 	case "recvack": // a notification: carries no id
-		msg = jsonrpc.RecvAckNotification{BaseNotification: jsonrpc.BaseNotification{Jsonrpc: "2.0", Method: jsonrpc.MethodRecvAck},
-			Params: jsonrpc.RecvAckParams{Header: m.header(), MessageID: m.s("mid"), MessageSeq: m.u("mseq")}}
+		msg.ID = ""
+		msg.Method = jsonrpc.MethodRecvAck
+		msg.Params = cliRecvAck{Header: m.cliHeader(), MessageID: m.s("mid"), MessageSeq: m.u("mseq")}
 	case "subscribe":
-		base.Method = jsonrpc.MethodSubscribe
-		msg = jsonrpc.SubscribeRequest{BaseRequest: base, Params: jsonrpc.SubscribeParams{SubNo: m.s("sub"), ChannelID: m.s("ch"), ChannelType: int(m.i("ct")), Param: m.s("param")}}
+		msg.Method = jsonrpc.MethodSubscribe
+		msg.Params = cliSub{SubNo: m.s("sub"), ChannelID: m.s("ch"), ChannelType: m.i("ct"), Param: m.s("param")}
 	case "unsubscribe":
-		base.Method = jsonrpc.MethodUnsubscribe
-		msg = jsonrpc.UnsubscribeRequest{BaseRequest: base, Params: jsonrpc.UnsubscribeParams{SubNo: m.s("sub"), ChannelID: m.s("ch"), ChannelType: int(m.i("ct"))}}
+		msg.Method = jsonrpc.MethodUnsubscribe
+		msg.Params = cliSub{SubNo: m.s("sub"), ChannelID: m.s("ch"), ChannelType: m.i("ct")}
 	default:
 		return "bad-op"
 	}
